@@ -44,6 +44,8 @@ def check_cases(cases: list[dict], rep: Report, known: dict) -> None:
     b = Batch()
     extra = []
     for c in cases:
+        if rep.stop():
+            break
         e = wire.build_raw(c["e"])
         p = wire.build_point(c["p"])
         vs = common.names_of(e)
